@@ -61,7 +61,7 @@ func selfTests(s *scratch, prop string, seed uint64, thorough bool) error {
 
 func runWorkerEnv(s *scratch, extraEnv []string, args ...string) (string, error) {
 	c := exec.Command(s.worker, args...)
-	c.Env = append(append(s.env(), "SIM_WORKER_RACE="+s.workerRc), extraEnv...)
+	c.Env = append(s.env(), extraEnv...)
 	out, err := c.CombinedOutput()
 	return string(out), err
 }
